@@ -6,29 +6,29 @@ import OpcuaModel.Model.SrvSecLemmas
   `serverOpn` is the model of the server's treatment of the first
   OpenSecureChannel request of a connection (readChunk + handleOpenSecureChannelRequest
   as written), `initEndpoints` / `enabledOf` the model of the configuration side.
-  Both halves hold at full strength: advertised = enabled (C30_endpoints*,
-  C30_enable*), and a channel is opened only for an enabled pair
-  (C30_only_enabled) — since the server hands its enabled pairs to the channel
-  (`cfg.AcceptSecurity`, pinned by the regenerated fact `opnChecksEnabled`,
-  C30_facts).  The five former findings are restated as C30_repaired_*; the
-  exact acceptance condition is C30_accept_iff.
+  The "advertised = enabled" half holds (C30_endpoints*, C30_enable*); the "only
+  enabled pairs open a channel" half is FALSE on the unchanged code:
+  acceptance never looks at the enabled set (C30_accept_ignores_enabled, pinned
+  in the source by C30_facts).  The set of violating inputs is characterised
+  exactly (C30_violation_iff), split into five classes (C30_classify_cover) with
+  one machine-checked counterexample each (C30_finding_*), and the property is
+  proved on the complement (C30_only_enabled_partial).
 -/
 namespace Opcua.Props.C30
 open Opcua Opcua.SrvSec
 
 /-! ### source facts the model rests on (regenerated on every run) -/
 
-/-- `enabledSec` is read by `EnableSecurity`, `initEndpoints` and the predicate `securityEnabled`, which
-    `RegisterConn` installs as `cfg.AcceptSecurity` and `handleOpenSecureChannelRequest` consults; the
-    channel's policy and mode are assigned from the client's chunk / request and nowhere else; every
+/-- Only `EnableSecurity` and `initEndpoints` ever mention `enabledSec`; the
+    channel's policy and mode are assigned from the client's chunk / request
+    and nowhere else; the OPN path does not consult an acceptance predicate
+    (`cfg.AcceptSecurity`: none) and `server.New` adds no default pair; every
     server-side channel starts as None / None. -/
 theorem C30_facts :
-    Gen.SrvSec.enabledSecReaders =
-      ["server/server.go:New", "server/server.go:initEndpoints", "server/server.go:securityEnabled",
-       "server/server_config.go:EnableSecurity"] ∧
-    Gen.SrvSec.opnChecksEnabled = true ∧ Gen.SrvSec.defaultsToNone = true ∧
+    Gen.SrvSec.enabledSecReaders = ["server/server.go:initEndpoints", "server/server_config.go:EnableSecurity"] ∧
     Gen.SrvSec.chanCfgWrites =
       [("handleOpenSecureChannelRequest", "SecurityMode"), ("readChunk", "SecurityPolicyURI")] ∧
+    Gen.SrvSec.opnChecksEnabled = false ∧ Gen.SrvSec.defaultsToNone = false ∧
     Gen.SrvSec.defaultChannelPolicy = "ua.SecurityPolicyURINone" ∧
     Gen.SrvSec.defaultChannelMode = "ua.MessageSecurityModeNone" ∧
     Gen.SrvSec.supportedPolicies.contains policyNone = true := by decide
@@ -43,21 +43,6 @@ theorem C30_enable (calls : List (String × Nat)) :
   refine ⟨foldl_enable_nodup calls [] List.nodup_nil, fun s => ?_⟩
   have := foldl_enable_mem calls [] s
   simpa [enabledOf] using this
-
-/-- `server.New`: the configured set is the enabled calls, or None / None when they enabled nothing
-    (so a server always has an endpoint to advertise and a pair to accept). -/
-theorem C30_configured (calls : List (String × Nat)) :
-    (configured calls).Nodup ∧ configured calls ≠ [] ∧
-    (enabledOf calls ≠ [] → configured calls = enabledOf calls) ∧
-    (enabledOf calls = [] → configured calls = [⟨policyNone, modeNone⟩]) := by
-  have hd : Gen.SrvSec.defaultsToNone = true := by decide
-  unfold configured
-  cases he : enabledOf calls with
-  | nil => simp [hd]
-  | cons a r =>
-    have := (C30_enable calls).1
-    rw [he] at this
-    simp [hd, this]
 
 /-! ### advertised endpoints -/
 
@@ -102,6 +87,10 @@ theorem C30_getEndpoints (cfg : SrvCfg) (u : String) (hu : u ∈ cfg.urls) (s : 
 
 /-! ### OpenSecureChannel acceptance -/
 
+/-- The server's answer does not depend on the enabled set (nor on the URLs). -/
+theorem C30_accept_ignores_enabled (srv srv' : SrvCfg) (o : Opn) :
+    serverOpn srv o = serverOpn srv' o := rfl
+
 /-- Closed form of acceptance: the step-by-step model accepts exactly the
     requests satisfying `acceptable`, and the channel gets the request's pair. -/
 theorem C30_accept_iff (srv : SrvCfg) (o : Opn) (s : Sec) :
@@ -133,37 +122,26 @@ theorem C30_unsupported_refused (srv : SrvCfg) (o : Opn) (h : supported o.policy
     unfold acceptable at this
     simp_all
 
-/-- C30, second half, at full strength: whatever the configuration and whatever the request, a
-    channel is opened only with one of the enabled (policy, mode) pairs. -/
-theorem C30_only_enabled (srv : SrvCfg) (o : Opn) (s : Sec) (h : serverOpn srv o = .accept s) :
-    s ∈ srv.enabled := by
+/-- C30 on the part of the input space where it holds: if the requested pair is
+    enabled, or the request is not acceptable, an opened channel has an enabled pair. -/
+theorem C30_only_enabled_partial (srv : SrvCfg) (o : Opn) (s : Sec)
+    (guard : (⟨o.policy, o.mode⟩ : Sec) ∈ srv.enabled ∨ acceptable srv o = false)
+    (h : serverOpn srv o = .accept s) : s ∈ srv.enabled := by
   obtain ⟨ha, rfl⟩ := (C30_accept_iff srv o s).mp h
-  have hk : Gen.SrvSec.opnChecksEnabled = true := by decide
-  unfold acceptable at ha
-  simp only [hk, Bool.not_true, Bool.false_or, Bool.and_eq_true] at ha
-  exact List.contains_iff_mem.mp ha.1.2
+  rcases guard with g | g
+  · exact g
+  · simp [ha] at g
 
-/-- any other request is refused: in particular invalid mode values and secure policies with mode None -/
-theorem C30_not_enabled_refused (srv : SrvCfg) (o : Opn) (h : (⟨o.policy, o.mode⟩ : Sec) ∉ srv.enabled) :
-    serverOpn srv o = .reject := by
-  cases hr : serverOpn srv o with
-  | reject => rfl
-  | accept s =>
-    have hs := C30_only_enabled srv o s hr
-    obtain ⟨_, rfl⟩ := (C30_accept_iff srv o s).mp hr
-    exact absurd hs h
-
-/-- an enabled valid pair is still accepted from a client that does its part (the check refuses nothing
-    that was enabled) -/
-theorem C30_enabled_accepted (srv : SrvCfg) (o : Opn) (he : (⟨o.policy, o.mode⟩ : Sec) ∈ srv.enabled)
-    (hv : o.protoVer = 0) (ht : o.authTok = 0) (hs : supported o.policy = true)
-    (hc : if o.policy = policyNone then o.body = .plain ∧ o.mode = modeNone else o.cert = .good ∧ o.body = .secured) :
-    serverOpn srv o = .accept ⟨o.policy, o.mode⟩ := by
-  rw [C30_accept_iff]
-  refine ⟨?_, rfl⟩
-  unfold acceptable
-  have hcont : srv.enabled.contains (⟨o.policy, o.mode⟩ : Sec) = true := List.contains_iff_mem.mpr he
-  by_cases hp : o.policy = policyNone <;> simp_all
+/-- Exactly the acceptable requests for a pair that is not enabled violate C30. -/
+theorem C30_violation_iff (srv : SrvCfg) (o : Opn) :
+    (∃ s, serverOpn srv o = .accept s ∧ s ∉ srv.enabled) ↔
+      acceptable srv o = true ∧ (⟨o.policy, o.mode⟩ : Sec) ∉ srv.enabled := by
+  constructor
+  · rintro ⟨s, h, hn⟩
+    obtain ⟨ha, rfl⟩ := (C30_accept_iff srv o s).mp h
+    exact ⟨ha, hn⟩
+  · rintro ⟨ha, hn⟩
+    exact ⟨_, (C30_accept_iff srv o _).mpr ⟨ha, rfl⟩, hn⟩
 
 /-- The finding signatures partition the violations: a pair that is not enabled
     falls into exactly one of the five classes, an enabled one into none. -/
@@ -184,7 +162,7 @@ theorem C30_classify_cover (srv : SrvCfg) (s : Sec) :
         · simp
         · split <;> simp
 
-/-! ### repaired: the five former findings -/
+/-! ### the full-strength statement is false: machine-checked counterexamples -/
 
 /-- a server that enabled only Basic256Sha256 / SignAndEncrypt -/
 def srvB256SE : SrvCfg := ⟨[⟨"Basic256Sha256", modeSignAndEncrypt⟩], ["opc.tcp://localhost:4840"]⟩
@@ -194,31 +172,56 @@ def srvB256S : SrvCfg := ⟨[⟨"Basic256Sha256", modeSign⟩], ["opc.tcp://loca
 def opnNone : Opn := { policy := "None", cert := .absent, body := .plain, mode := modeNone }
 def opnSecure (p : String) (m : Nat) : Opn := { policy := p, cert := .good, body := .secured, mode := m }
 
-/-- was C30.accept-none-not-enabled: the unsecured pair is refused unless it is enabled -/
-theorem C30_repaired_none_not_enabled :
-    serverOpn srvB256SE opnNone = .reject ∧
-    serverOpn ⟨[⟨"None", modeNone⟩], []⟩ opnNone = .accept ⟨"None", modeNone⟩ := by decide
+/-- finding C30.accept-none-not-enabled: the unsecured pair is accepted by a
+    server that enabled only Basic256Sha256 / SignAndEncrypt (and advertises only that). -/
+theorem C30_finding_none_not_enabled :
+    serverOpn srvB256SE opnNone = .accept ⟨"None", modeNone⟩ ∧
+    (⟨"None", modeNone⟩ : Sec) ∉ srvB256SE.enabled ∧
+    (initEndpoints srvB256SE).map (·.sec) = [⟨"Basic256Sha256", modeSignAndEncrypt⟩] ∧
+    classify srvB256SE ⟨"None", modeNone⟩ = "C30.accept-none-not-enabled" := by decide
 
-/-- was C30.accept-policy-not-enabled -/
-theorem C30_repaired_policy_not_enabled :
-    serverOpn srvB256SE (opnSecure "Basic128Rsa15" modeSign) = .reject := by decide
+/-- finding C30.accept-policy-not-enabled: the deprecated Basic128Rsa15 is accepted
+    although only Basic256Sha256 is enabled. -/
+theorem C30_finding_policy_not_enabled :
+    serverOpn srvB256SE (opnSecure "Basic128Rsa15" modeSign) = .accept ⟨"Basic128Rsa15", modeSign⟩ ∧
+    (⟨"Basic128Rsa15", modeSign⟩ : Sec) ∉ srvB256SE.enabled ∧
+    classify srvB256SE ⟨"Basic128Rsa15", modeSign⟩ = "C30.accept-policy-not-enabled" := by decide
 
-/-- was C30.accept-mode-not-enabled -/
-theorem C30_repaired_mode_not_enabled :
-    serverOpn srvB256SE (opnSecure "Basic256Sha256" modeSign) = .reject ∧
-    serverOpn srvB256S (opnSecure "Basic256Sha256" modeSignAndEncrypt) = .reject ∧
-    serverOpn srvB256S (opnSecure "Basic256Sha256" modeSign) = .accept ⟨"Basic256Sha256", modeSign⟩ := by decide
+/-- finding C30.accept-mode-not-enabled: Sign is accepted where only SignAndEncrypt
+    is enabled for the policy (and the other way round). -/
+theorem C30_finding_mode_not_enabled :
+    serverOpn srvB256SE (opnSecure "Basic256Sha256" modeSign) = .accept ⟨"Basic256Sha256", modeSign⟩ ∧
+    (⟨"Basic256Sha256", modeSign⟩ : Sec) ∉ srvB256SE.enabled ∧
+    classify srvB256SE ⟨"Basic256Sha256", modeSign⟩ = "C30.accept-mode-not-enabled" ∧
+    serverOpn srvB256S (opnSecure "Basic256Sha256" modeSignAndEncrypt) = .accept ⟨"Basic256Sha256", modeSignAndEncrypt⟩ ∧
+    classify srvB256S ⟨"Basic256Sha256", modeSignAndEncrypt⟩ = "C30.accept-mode-not-enabled" := by decide
 
-/-- was C30.accept-secure-policy-mode-none and C30.accept-invalid-mode -/
-theorem C30_repaired_irregular_modes :
-    serverOpn srvB256SE (opnSecure "Basic256Sha256" modeNone) = .reject ∧
-    serverOpn srvB256SE (opnSecure "Basic256Sha256" 0) = .reject ∧
-    serverOpn srvB256SE (opnSecure "Basic256Sha256" 77) = .reject := by decide
+/-- finding C30.accept-secure-policy-mode-none: a properly secured OPN that asks for
+    SecurityMode None under a secure policy is accepted; the channel then runs in
+    the clear under the name of the secure policy. -/
+theorem C30_finding_secure_policy_mode_none :
+    serverOpn srvB256SE (opnSecure "Basic256Sha256" modeNone) = .accept ⟨"Basic256Sha256", modeNone⟩ ∧
+    validPair ⟨"Basic256Sha256", modeNone⟩ = false ∧
+    classify srvB256SE ⟨"Basic256Sha256", modeNone⟩ = "C30.accept-secure-policy-mode-none" := by decide
+
+/-- finding C30.accept-invalid-mode: SecurityMode values that are not modes at all
+    (0 = Invalid, 77) are accepted and stored. -/
+theorem C30_finding_invalid_mode :
+    serverOpn srvB256SE (opnSecure "Basic256Sha256" 0) = .accept ⟨"Basic256Sha256", 0⟩ ∧
+    serverOpn srvB256SE (opnSecure "Basic256Sha256" 77) = .accept ⟨"Basic256Sha256", 77⟩ ∧
+    validPair ⟨"Basic256Sha256", 77⟩ = false ∧
+    classify srvB256SE ⟨"Basic256Sha256", 77⟩ = "C30.accept-invalid-mode" := by decide
+
+/-- the property at full strength does not hold for the code as it is -/
+theorem C30_only_enabled_false :
+    ¬ ∀ (srv : SrvCfg) (o : Opn) (s : Sec), serverOpn srv o = .accept s → s ∈ srv.enabled := by
+  intro h
+  exact absurd (h srvB256SE opnNone _ C30_finding_none_not_enabled.1) C30_finding_none_not_enabled.2.1
 
 /-! ### non-vacuity -/
 
 example : serverOpn srvB256SE (opnSecure "Basic256Sha256" modeSignAndEncrypt) = .accept ⟨"Basic256Sha256", 3⟩ := by decide
-example : serverOpn ⟨[⟨"None", modeNone⟩, ⟨"None", modeSign⟩], []⟩ { opnNone with mode := modeSign } = .reject := by decide
+example : serverOpn srvB256SE { opnNone with mode := modeSign } = .reject := by decide
 example : serverOpn srvB256SE { (opnSecure "Basic256Sha256" 3) with body := .plain } = .reject := by decide
 example : serverOpn srvB256SE (opnSecure "Bogus" 3) = .reject := by decide
 example : enabledOf [("Basic256", 2), ("Basic256", 2), ("Bogus", 2), ("None", 1)] = [⟨"Basic256", 2⟩, ⟨"None", 1⟩] := by decide
